@@ -24,28 +24,43 @@ Proof. unfold LMAX, CAP in *. change (0 / 4) with 0. lia. Qed.
 Lemma slot_ne_f' i : i < LMAX -> f + 0 / 4 <> base + i / 4.
 Proof. intros Hi E. symmetry in E. revert E. apply slot_ne_f. exact Hi. Qed.
 
+(* slots outside the vector's footprint {f} U [base, base+CAP) are as in the initial store s0 *)
+Variable s0 : store.
+Definition outside (s : store) : Prop :=
+  forall k, k <> f -> (k < base \/ base + CAP <= k) -> sget s k = sget s0 k.
+Lemma outside_wwrite_elem s i v : outside s -> i < LMAX -> outside (wwrite s base i v).
+Proof.
+  intros Ho Hi k Hk Hr. rewrite sget_wwrite_other; [apply Ho; assumption|]. unfold LMAX, CAP in *. lia.
+Qed.
+Lemma outside_wwrite_len s v : outside s -> outside (wwrite s f 0 v).
+Proof.
+  intros Ho k Hk Hr. rewrite sget_wwrite_other; [apply Ho; assumption|]. change (0 / 4) with 0. lia.
+Qed.
+
 (* length word and all words of the element region *)
 Definition vst (s : store) (L : N) (g : N -> N) : Prop :=
-  abs_len s f = L /\ forall i, i < LMAX -> wread s base i = g i.
+  abs_len s f = L /\ (forall i, i < LMAX -> wread s base i = g i) /\ outside s.
 Definition allset (s : store) (n : N) : Prop := forall i, i < n -> sget s (base + i / 4) <> None.
 
-Lemma vst_init s : vst s (abs_len s f) (wread s base).
-Proof. split; [reflexivity|]. intros. reflexivity. Qed.
+Lemma vst_init : vst s0 (abs_len s0 f) (wread s0 base).
+Proof. split; [reflexivity|]. split; [intros; reflexivity|]. intros k _ _. reflexivity. Qed.
 
 Lemma vst_wwrite_elem s L g i v : vst s L g -> i < LMAX -> vst (wwrite s base i v) L (setto g i v).
 Proof.
-  intros [Hl Hw] Hi. split.
+  intros [Hl [Hw Ho]] Hi. split; [|split].
   - unfold abs_len. rewrite wread_wwrite_far by (apply slot_ne_f'; exact Hi). exact Hl.
   - intros j Hj. unfold setto. destruct (N.eqb_spec j i) as [E|E].
     + subst j. apply wread_wwrite_same.
     + rewrite wread_wwrite_other by exact E. apply Hw. exact Hj.
+  - apply outside_wwrite_elem; assumption.
 Qed.
 
 Lemma vst_wwrite_len s L g L' : vst s L g -> vst (wwrite s f 0 L') L' g.
 Proof.
-  intros [Hl Hw]. split.
+  intros [Hl [Hw Ho]]. split; [|split].
   - unfold abs_len. apply wread_wwrite_same.
   - intros j Hj. rewrite wread_wwrite_far by (apply slot_ne_f; exact Hj). apply Hw. exact Hj.
+  - apply outside_wwrite_len. exact Ho.
 Qed.
 
 Lemma allset_le s n m : allset s n -> m <= n -> allset s m.
@@ -84,7 +99,7 @@ Qed.
 Lemma read_elem_ok s L g i :
   vst s L g -> sget s (base + i / 4) <> None -> i < LMAX -> read_elem 1 false s base i = Ok (Some [g i]).
 Proof.
-  intros [Hl Hw] Hs Hi. rewrite read_elem_raw by exact Hi.
+  intros [Hl [Hw Ho]] Hs Hi. rewrite read_elem_raw by exact Hi.
   specialize (Hw i Hi). unfold wread, sgetz in Hw.
   destruct (sget s (base + i / 4)) as [v|]; [|congruence]. cbn [option_map]. rewrite Hw. reflexivity.
 Qed.
@@ -101,7 +116,7 @@ Proof. intros [Hl _]. rewrite read_len_eq by exact Hf. unfold abs_len in Hl. rew
 (* the abstraction in terms of vst *)
 Lemma abs_of_vst s L g : vst s L g -> L <= LMAX -> abs_vec H s f = map g (Nseq L).
 Proof.
-  intros [Hl Hw] HL. unfold abs_vec. rewrite Hl. fold base. unfold Nseq. rewrite map_map.
+  intros [Hl [Hw Ho]] HL. unfold abs_vec. rewrite Hl. fold base. unfold Nseq. rewrite map_map.
   apply map_ext_in. intros a Ha. apply in_seq in Ha. apply Hw. lia.
 Qed.
 
@@ -170,7 +185,7 @@ Proof.
   destruct (N.eqb_spec L 0) as [E|E]; [reflexivity|]. fold base.
   assert (H0 : 0 < LMAX) by reflexivity.
   rewrite read_quads1_eq; [|exact H0|apply slot_in; exact H0]. cbn [bind].
-  destruct Hv as [Hl Hw]. specialize (Hw 0 H0). unfold wread, sgetz in Hw.
+  destruct Hv as [Hl [Hw Ho]]. specialize (Hw 0 H0). unfold wread, sgetz in Hw.
   assert (Hs : sget s (base + 0 / 4) <> None) by (apply Ha; lia).
   destruct (sget s (base + 0 / 4)) as [x|]; [|congruence]. cbn [option_map]. rewrite Hw. reflexivity.
 Qed.
@@ -195,7 +210,7 @@ Proof.
   destruct (N.ltb_spec j L) as [Ej|Ej]; cbn [assert bind andb]; [|reflexivity].
   destruct (N.eqb_spec i j) as [E|E].
   - subst j. exists s. split; [reflexivity|]. split; [|exact Ha].
-    destruct Hv as [Hl Hw]. split; [exact Hl|]. intros k Hk. unfold setto.
+    destruct Hv as [Hl [Hw Ho]]. split; [exact Hl|]. split; [|exact Ho]. intros k Hk. unfold setto.
     destruct (N.eqb_spec k i) as [E|E]; [subst k|]; apply Hw; assumption.
   - fold base.
     rewrite (read_elem_ok _ _ _ _ Hv) by (try apply Ha; lia). cbn [bind unwrap].
@@ -227,22 +242,23 @@ Lemma clear_ok s L g :
   vst s L g ->
   exists s' b, vec_clear s f = Ok (s', b) /\ vst s' 0 g /\ allset s' 0.
 Proof.
-  intros [Hl Hw]. unfold vec_clear, clear_quads. cbn [Nat.eqb]. change (8 * N.of_nat 1) with 8.
+  intros [Hl [Hw Ho]]. unfold vec_clear, clear_quads. cbn [Nat.eqb]. change (8 * N.of_nat 1) with 8.
   assert (H0 : 0 < LMAX) by reflexivity.
   rewrite slot_calc_u64; [|exact H0|change (0 / 4) with 0; lia]. cbn [bind].
   change (N.to_nat 1) with 1%nat. cbn [clear_quad]. change (0 / 4) with 0.
   assert (Hk : f + 0 <? W256 = true) by (apply N.ltb_lt; lia). rewrite Hk. cbn [bind fst snd].
   eexists. eexists. split; [reflexivity|]. split.
-  - split.
+  - split; [|split].
     + unfold abs_len, wread, sgetz. change (0 / 4) with 0. rewrite sget_sclr_same. reflexivity.
     + intros i Hi. unfold wread, sgetz. rewrite sget_sclr_other by (apply slot_ne_f in Hi; change (0 / 4) with 0 in Hi; exact Hi).
       apply Hw. exact Hi.
+    + intros k Hk2 Hr. rewrite sget_sclr_other by (change (0 / 4) with 0; lia). apply Ho; assumption.
   - intros i Hi. lia.
 Qed.
 
 (* ---------- loops ---------- *)
 Lemma vst_ext s L g g' : vst s L g -> (forall j, j < LMAX -> g j = g' j) -> vst s L g'.
-Proof. intros [Hl Hw] He. split; [exact Hl|]. intros j Hj. rewrite Hw by exact Hj. apply He. exact Hj. Qed.
+Proof. intros [Hl [Hw Ho]] He. split; [exact Hl|]. split; [|exact Ho]. intros j Hj. rewrite Hw by exact Hj. apply He. exact Hj. Qed.
 
 Ltac fun_cases :=
   repeat match goal with
@@ -477,17 +493,18 @@ Qed.
 Definition vop_proved (o : vop) : Prop :=
   match o with VResize n _ => n < LMAX | VStore _ | VLoad => False | _ => True end.
 
-Theorem vec_refines s o :
+Theorem vec_refines o :
+  let s := s0 in
   vec_inv H s f -> abs_len s f + 1 < LMAX -> vop_proved o ->
   match spec_vec (abs_vec H s f) o with
   | Some (l', out) =>
     exists s' mo, vec_step H s f o = Ok (s', mo) /\ abs_vec H s' f = l' /\ vec_inv H s' f
-                  /\ abs_len s' f = len l' /\ (forall so, out = Some so -> mo = so)
+                  /\ abs_len s' f = len l' /\ (forall so, out = Some so -> mo = so) /\ outside s'
   | None => vec_step H s f o = Err 1
   end.
 Proof.
-  intros Hinv HL Hop.
-  pose proof (vst_init s) as Hv. apply vec_inv_allset in Hinv. rename Hinv into Ha.
+  intros s Hinv HL Hop.
+  pose proof vst_init as Hv. fold s in Hv. apply vec_inv_allset in Hinv. rename Hinv into Ha.
   set (L := abs_len s f) in *. set (g := wread s base) in *.
   assert (Habs : abs_vec H s f = map g (Nseq L)) by (apply abs_of_vst; [exact Hv|lia]).
   remember (abs_vec H s f) as l eqn:El. clear El.
@@ -504,7 +521,7 @@ Proof.
     + intros i Hi. unfold setto. destruct (N.eqb_spec i L) as [E|E].
       * rewrite nthN_app_r by lia. replace (i - len l) with 0 by lia. reflexivity.
       * rewrite nthN_app_l by lia. apply Hn. lia.
-    + repeat split; try assumption. intros so E. injection E as E. auto.
+    + repeat split; try assumption; try (apply Hv'); try (apply Hv). intros so E. injection E as E. auto.
   - (* pop *)
     destruct (pop_ok s L g Hv Ha) as [s' [Hr [Hv' Ha']]]; [lia|]. rewrite Hr. cbn [bind fst snd].
     destruct l as [|x r].
@@ -512,7 +529,7 @@ Proof.
       replace (L =? 0) with true by (symmetry; apply N.eqb_eq; exact HL0).
       exists s', [0]. split; [reflexivity|].
       destruct (finish s' (L - 1) g [] Hv' Ha') as [A [B C]]; [lia|rewrite HL0; reflexivity|intros i Hi; lia|].
-      repeat split; try assumption. intros so E. injection E as E. auto.
+      repeat split; try assumption; try (apply Hv'); try (apply Hv). intros so E. injection E as E. auto.
     + assert (HL0 : L <> 0) by (rewrite <- Hlen, len_cons; lia).
       replace (L =? 0) with false by (symmetry; apply N.eqb_neq; exact HL0).
       exists s', [1; g (L - 1)]. split; [reflexivity|].
@@ -520,14 +537,14 @@ Proof.
       * lia.
       * rewrite len_removelast, Hlen. reflexivity.
       * intros i Hi. rewrite nthN_removelast by (rewrite Hlen; exact Hi). apply Hn. lia.
-      * repeat split; try assumption. intros so E. injection E as E. subst so.
+      * repeat split; try assumption; try (apply Hv'); try (apply Hv). intros so E. injection E as E. subst so.
         change (match r with [] => x | _ :: _ => last r 0 end) with (last (x :: r) 0).
         rewrite last_nthN, Hlen. rewrite Hn by lia. reflexivity.
   - (* get *)
     rewrite (get_ok s L g i Hv Ha) by lia. cbn [bind].
     exists s. eexists. split; [reflexivity|].
     destruct (finish s L g l Hv Ha) as [A [B C]]; [lia|exact Hlen|exact Hn|].
-    repeat split; try assumption. intros so E. injection E as E. subst so.
+    repeat split; try assumption; try (apply Hv'); try (apply Hv). intros so E. injection E as E. subst so.
     destruct (N.ltb_spec i L) as [E1|E1]; destruct (N.leb_spec L i) as [E2|E2]; try lia; cbn [out_opt2]; [|reflexivity].
     f_equal. f_equal. symmetry. apply Hn. exact E1.
   - (* set *)
@@ -538,7 +555,7 @@ Proof.
       * lia.
       * rewrite len_upd. exact Hlen.
       * intros k Hk. rewrite nthN_upd by lia. unfold setto. destruct (k =? i); [reflexivity|apply Hn; exact Hk].
-      * repeat split; try assumption. intros so E'. injection E' as E'. auto.
+      * repeat split; try assumption; try (apply Hv'); try (apply Hv). intros so E'. injection E' as E'. auto.
     + rewrite Hs by lia. reflexivity.
   - (* insert *)
     pose proof (insert_ok s L g i v Hv Ha) as Hs. destruct (N.leb_spec i L) as [E|E].
@@ -555,7 +572,7 @@ Proof.
         -- rewrite nthN_app_r by (rewrite len_firstn; lia). rewrite len_firstn by lia.
            rewrite nthN_cons_S by lia. rewrite nthN_skipn. decide_cmp.
            replace (N.of_nat (N.to_nat i) + (k - i - 1)) with (k - 1) by lia. apply Hn. lia.
-      * repeat split; try assumption. intros so E'. injection E' as E'. auto.
+      * repeat split; try assumption; try (apply Hv'); try (apply Hv). intros so E'. injection E' as E'. auto.
     + rewrite Hs by lia. reflexivity.
   - (* remove *)
     pose proof (remove_ok s L g i Hv Ha) as Hs. destruct (N.ltb_spec i L) as [E|E].
@@ -569,7 +586,7 @@ Proof.
         -- rewrite nthN_app_l by (rewrite len_firstn; lia). rewrite nthN_firstn by lia. decide_cmp. apply Hn. lia.
         -- rewrite nthN_app_r by (rewrite len_firstn; lia). rewrite len_firstn by lia. rewrite nthN_skipn. decide_cmp.
            replace (N.of_nat (S (N.to_nat i)) + (k - i)) with (k + 1) by lia. apply Hn. lia.
-      * repeat split; try assumption. intros so E'. injection E' as E'. subst so. f_equal. symmetry. apply Hn. exact E.
+      * repeat split; try assumption; try (apply Hv'); try (apply Hv). intros so E'. injection E' as E'. subst so. f_equal. symmetry. apply Hn. exact E.
     + rewrite Hs by lia. reflexivity.
   - (* swap *)
     pose proof (swap_ok s L g i j Hv Ha) as Hs.
@@ -583,7 +600,7 @@ Proof.
       * intros k Hk. rewrite nthN_upd by (rewrite len_upd; lia). rewrite nthN_upd by lia. unfold setto.
         change (nth (N.to_nat i) l 0) with (nthN l i). change (nth (N.to_nat j) l 0) with (nthN l j).
         rewrite !Hn by lia. reflexivity.
-      * repeat split; try assumption. intros so E'. injection E' as E'. auto.
+      * repeat split; try assumption; try (apply Hv'); try (apply Hv). intros so E'. injection E' as E'. auto.
     + rewrite Hs by lia. reflexivity.
     + rewrite Hs by lia. reflexivity.
   - (* swap_remove *)
@@ -595,25 +612,25 @@ Proof.
       * rewrite len_removelast, len_upd, Hlen. reflexivity.
       * intros k Hk. rewrite nthN_removelast by (rewrite len_upd, Hlen; exact Hk). rewrite nthN_upd by lia.
         unfold setto. rewrite last_nthN, Hlen. rewrite !Hn by lia. reflexivity.
-      * repeat split; try assumption. intros so E'. injection E' as E'. subst so. f_equal. symmetry. apply Hn. exact E.
+      * repeat split; try assumption; try (apply Hv'); try (apply Hv). intros so E'. injection E' as E'. subst so. f_equal. symmetry. apply Hn. exact E.
     + rewrite Hs by lia. reflexivity.
   - (* len *)
     rewrite (len_ok s L g Hv). cbn [bind]. exists s, [L]. split; [reflexivity|].
     destruct (finish s L g l Hv Ha) as [A [B C]]; [lia|exact Hlen|exact Hn|].
-    repeat split; try assumption. intros so E. injection E as E. auto.
+    repeat split; try assumption; try (apply Hv'); try (apply Hv). intros so E. injection E as E. auto.
   - (* is_empty *)
     rewrite (is_empty_ok s L g Hv). cbn [bind]. exists s, [b2n (L =? 0)]. split; [reflexivity|].
     destruct (finish s L g l Hv Ha) as [A [B C]]; [lia|exact Hlen|exact Hn|].
-    repeat split; try assumption. intros so E. injection E as E. auto.
+    repeat split; try assumption; try (apply Hv'); try (apply Hv). intros so E. injection E as E. auto.
   - (* clear *)
     destruct (clear_ok s L g Hv) as [s' [b [Hr [Hv' Ha']]]]. rewrite Hr. cbn [bind fst snd].
     exists s', [b2n b]. split; [reflexivity|].
     destruct (finish s' 0 g [] Hv' Ha') as [A [B C]]; [lia|reflexivity|intros i Hi; lia|].
-    repeat split; try assumption. intros so E. discriminate E.
+    repeat split; try assumption; try (apply Hv'); try (apply Hv). intros so E. discriminate E.
   - (* first *)
     rewrite (first_ok s L g Hv Ha) by lia. cbn [bind]. exists s. eexists. split; [reflexivity|].
     destruct (finish s L g l Hv Ha) as [A [B C]]; [lia|exact Hlen|exact Hn|].
-    repeat split; try assumption. intros so E. injection E as E. subst so.
+    repeat split; try assumption; try (apply Hv'); try (apply Hv). intros so E. injection E as E. subst so.
     destruct l as [|x r].
     + replace (L =? 0) with true by (symmetry; apply N.eqb_eq; rewrite <- Hlen; reflexivity). reflexivity.
     + assert (HL0 : L <> 0) by (rewrite <- Hlen, len_cons; lia).
@@ -622,7 +639,7 @@ Proof.
   - (* last *)
     rewrite (last_ok s L g Hv Ha) by lia. cbn [bind]. exists s. eexists. split; [reflexivity|].
     destruct (finish s L g l Hv Ha) as [A [B C]]; [lia|exact Hlen|exact Hn|].
-    repeat split; try assumption. intros so E. injection E as E. subst so.
+    repeat split; try assumption; try (apply Hv'); try (apply Hv). intros so E. injection E as E. subst so.
     destruct l as [|x r].
     + replace (L =? 0) with true by (symmetry; apply N.eqb_eq; rewrite <- Hlen; reflexivity). reflexivity.
     + assert (HL0 : L <> 0) by (rewrite <- Hlen, len_cons; lia).
@@ -636,7 +653,7 @@ Proof.
     + rewrite len_rev. exact Hlen.
     + intros k Hk. rewrite nthN_rev by lia. rewrite Hlen. unfold revall. decide_cmp.
       replace (L - k - 1) with (L - 1 - k) by lia. apply Hn. lia.
-    + repeat split; try assumption. intros so E. injection E as E. auto.
+    + repeat split; try assumption; try (apply Hv'); try (apply Hv). intros so E. injection E as E. auto.
   - (* fill *)
     destruct (fill_ok s L g v Hv Ha) as [s' [Hr [Hv' Ha']]]; [lia|]. rewrite Hr. cbn [bind].
     exists s', []. split; [reflexivity|].
@@ -644,7 +661,7 @@ Proof.
     + lia.
     + rewrite len_repeat. exact Hlen.
     + intros k Hk. rewrite nthN_repeat by (unfold len in Hlen; lia). unfold fillf. decide_cmp.
-    + repeat split; try assumption. intros so E. injection E as E. auto.
+    + repeat split; try assumption; try (apply Hv'); try (apply Hv). intros so E. injection E as E. auto.
   - (* resize *)
     cbn [vop_proved] in Hop.
     destruct (resize_ok s L g n v Hv Ha) as [s' [Hr [Hv' Ha']]]; [lia|exact Hop|]. rewrite Hr. cbn [bind].
@@ -657,7 +674,7 @@ Proof.
       * assert (Hc : k < L \/ L <= k) by lia. destruct Hc as [Hc|Hc].
         -- rewrite nthN_app_l by lia. decide_cmp. apply Hn. lia.
         -- rewrite nthN_app_r by lia. rewrite nthN_repeat by lia. decide_cmp.
-    + repeat split; try assumption. intros so E. injection E as E. auto.
+    + repeat split; try assumption; try (apply Hv'); try (apply Hv). intros so E. injection E as E. auto.
   - destruct Hop.
   - destruct Hop.
 Qed.
